@@ -214,6 +214,7 @@ static void snapshot_symbols(AsmContext *ctx, std::vector<NvSym> &out)
 
 static void snapshot_image(AsmContext *ctx, NvResult &r)
 {
+  r.read8_bad = -1;
   for (MemoryPage *page = ctx->memory.pages; page != NULL; page = page->next)
   {
     for (int i = 0; i < PAGE_SIZE; i++)
@@ -224,6 +225,10 @@ static void snapshot_image(AsmContext *ctx, NvResult &r)
       b.data = page->bin[i];
       b.kind = d == DL_DATA ? 1 : (d == DL_NO_CG ? 2 : 0);
       r.image[page->address + i] = b;
+      if (r.read8_bad < 0 && ctx->memory.read8(page->address + i) != page->bin[i])
+      {
+        r.read8_bad = (long long)page->address + i;
+      }
     }
   }
   r.low = ctx->memory.low_address;
@@ -368,6 +373,7 @@ void nv_assemble(const std::string &source, const NvOpts &opts, NvResult &r)
   r.bpa = 1;
   r.cpu_index = -1;
   r.instruction_count = r.code_count = r.data_count = 0;
+  r.read8_bad = -1;
 
   AsmJob job;
   job.ctx = new AsmContext();
